@@ -19,6 +19,47 @@ CHECKS = {
     ),
 }
 
+def _conn(pid, what):
+    return dict(
+        engine="Conn",
+        category="model_checking",
+        text=("Environment-action scripts (TLC-generated from Conn.tla, hand-written corner cases, seeded random) are executed on REAL client and "
+              "server sessions over a scripted transport inside testing/synctest; every observable event and every critical section of "
+              "jsonrpc2.Connection (verif hook) is logged and judged by the TLA+ monitor ConnMon (clauses " + what + "), evaluated by TLC over the logs. "
+              "Conn.tla models the connection one action per critical section and is checked exhaustively for small constants."),
+        design_ref="DESIGN.md section 6 " + pid + ", section 5.1",
+        note="Trusted: TLC; the scripted transport and scripted handlers of the harness; testing/synctest quiescence as the notion of 'step finished'; seam-level scheduling (SDK critical sections run to quiescence between environment actions).",
+        technique="TLA+ spec + TLC; scenario replay on real sessions under synctest; TLA+ monitor over recorded traces",
+    )
+
+CHECKS.update({
+    "C01": _conn("C01", "C01.CompleteOnce/OwnResponse/ErrorHasCause/ResponseCompletes/NotBlockedAfterTermination/FailFastAfterTermination"),
+    "C02": _conn("C02", "C02.AnsweredAtMostOnce/NoReplyToNotification/AnsweredWhenUsable/DupInflightIdAnswered"),
+    "C03": _conn("C03", "C03.DispatchFIFO/NotificationCompletesFirst/NotifyReturnsAfterHandOff"),
+    "C04": _conn("C04", "C04.PromptReturn/CancelAnnounced/OnlyMatchingSent/OnlyMatchingCancelled/MatchingHandlerCancelled"),
+    "C05": _conn("C05", "C05.TransportClosedOnlyAfterHandlers/NoDispatchAfterClose/CloseReturns/WaitReturns/Removed/NoLeak/NoPanic"),
+    "C07": dict(
+        engine="Negotiate", category="model_checking",
+        text=("NegotiateDefs.tla states C07 as five declarative clauses over (configuration, outcome) plus a check-by-check transcription of the client and "
+              "server negotiation code. TLC enumerates the complete 970-cell matrix (requested version x transport x advertised subset x discover availability) "
+              "and evaluates the design on every cell; every cell is executed on a real Client/Server pair (in-memory, io pipes, SSE, streamable stateful/stateless "
+              "through an in-process RoundTripper under synctest) with ListTools and CallTool right after Connect; the TLA+ monitor NegotiateMon judges each outcome."),
+        design_ref="DESIGN.md section 6 C07, 5.3",
+        note="Trusted: TLC; harness projection (InitializeResult version, methods seen by a sending middleware); client and server are the same SDK build; advertised subsets only reachable through a ProtocolVersionSupporter wrapper on mem/io transports.",
+        technique="TLA+ decision table enumerated by TLC; every cell run on the real SDK; TLA+ monitor over observations",
+    ),
+    "C14": dict(
+        engine="Bearer", category="model_checking",
+        text=("BearerDefs.tla holds the abstract product of 54 000 cases (header shapes x verifier outcomes x scope sets x expiry around the skew boundary x options), "
+              "the code-shaped Expected and the declarative property Holds (iff admission, status by cause, challenge content, same token info). TLC checks "
+              "Holds(c, Expected(c)) on the whole product and exports it; every case is run through the real middleware under a frozen clock and the TLA+ monitor "
+              "evaluates Holds on the real outcome. Exhaustive in both tiers."),
+        design_ref="DESIGN.md section 6 C14",
+        note="Trusted: TLC; concretisation of abstract header/expiry classes in the harness; synctest frozen clock.",
+        technique="TLA+ decision table enumerated by TLC; complete product run on the real middleware; TLA+ monitor",
+    ),
+})
+
 NOT_YET = "check not built yet in this round (planned with the same technique; see DESIGN.md section 6)"
 
 def main():
